@@ -1354,8 +1354,8 @@ class LogixDriver(CIPDriver):
                 if request.type_ != "multi":
                     results[request.request_id] = Tag(request.tag, None, None, str(err))
                 else:
-                    for tag in request.tags:
-                        results[tag["request_id"]] = Tag(tag["tag"], None, None, str(err))
+                    for req in request.requests:
+                        results[req.request_id] = Tag(req.tag, None, None, str(err))
             else:
                 if request.type_ != "multi":
                     if response:
@@ -1377,6 +1377,12 @@ class LogixDriver(CIPDriver):
                         else:
                             results[req.request_id] = Tag(
                                 req.tag, None, None, req.error or resp.error
+                            )
+                    for req in request.requests:
+                        # requests the reply did not answer (e.g. the whole multi-service request was refused)
+                        if req.request_id not in results:
+                            results[req.request_id] = Tag(
+                                req.tag, None, None, req.error or response.error or "No reply for request"
                             )
         return results
 
